@@ -193,7 +193,12 @@ pub fn parse_select(toks: &[&str]) -> Option<(msi::Select, usize)> {
         sel = sel.columns(&cols);
     }
     if let Some(e) = cond {
-        sel = sel.with(e.to_msi());
+        // a conjunction at the top is handed over in two `with()` calls (which AND their
+        // arguments): the same query, built the other way the API offers
+        match e {
+            E::Bin("and", a, b) => sel = sel.with(a.to_msi()).with(b.to_msi()),
+            e => sel = sel.with(e.to_msi()),
+        }
     }
     Some((sel, pos))
 }
